@@ -772,6 +772,23 @@ pub fn skeletons() -> Vec<Case> {
             &["a *", "b *"],
             &[],
         ),
+        // the preferred a=2 is abandoned after its dependencies (d=1, e=1) had been selected through a
+        // three-literal learnt clause; nothing of it may stay behind (universe of a seeded change for C05)
+        mk(
+            "abandoned-candidate",
+            &[
+                ("a", 1, &[]),
+                ("a", 2, &["b *", "x * || d *"]),
+                ("x", 1, &["d *"]),
+                ("b", 2, &["!d 2"]),
+                ("b", 1, &["mb *"]),
+                ("d", 2, &["md *"]),
+                ("d", 1, &["e *"]),
+                ("e", 1, &[]),
+            ],
+            &["a *"],
+            &[],
+        ),
         // exercises learning: the pubgrub-article style backtracking chain
         mk(
             "backtrack-chain",
@@ -849,6 +866,31 @@ pub fn soft_skeletons() -> Vec<Case> {
             &[],
         );
         out.push(Case { u, p, tag: "soft-learn".into() });
+    }
+    // a soft solvable whose first-ranked dependency conflicts with a level-1 fact: the learnt clause
+    // backjumps below the level the soft run started at and the hard closure is re-decided
+    {
+        let (u, mut p, ids) = mini(
+            &[
+                ("a", 1, &["x *", "y *", "z *"]),
+                ("x", 1, &[]),
+                ("x", 2, &["w *"]),
+                ("x", 3, &["!y 1"]),
+                ("y", 1, &[]),
+                ("y", 2, &[]),
+                ("y", 3, &[]),
+                ("z", 1, &[]),
+                ("z", 2, &[]),
+                ("w", 1, &[]),
+                ("q", 1, &[]),
+                ("q", 2, &["y 3"]),
+                ("s", 1, &["q *"]),
+            ],
+            &["a *"],
+            &["y 1|2"],
+        );
+        p.soft = vec![ids["s=1"]];
+        out.push(Case { u, p, tag: "soft-backjump-below-start".into() });
     }
     out
 }
@@ -994,7 +1036,7 @@ mod tests {
 /// F5 menu: flags on any solvable, plus requirements/constrains that start at a
 /// z solvable or point at package z (z is the last package of a soft skeleton).
 pub fn f5_filter(c: &Case, d: &Deco) -> bool {
-    let z = (c.u.names.len() - 1) as Id;
+    let z = c.u.names.iter().position(|n| n.label == "z").unwrap_or(c.u.names.len() - 1) as Id;
     let is_z_solv = |s: &Id| c.u.solvs[*s as usize].name == z;
     let vs_is_z = |v: &VsSpec| match v {
         VsSpec::Id(i) => c.u.vsets[*i as usize].name == z,
